@@ -20,6 +20,7 @@ EXPLANATION = (
     "tat + t*tokens - tau; accept: tat := max(now, tat) + t*tokens) and prune keeps every bucket whose tat is not in the past. The "
     "quantitative statement itself - 'at most burst + rate x window admitted in any window, conforming traffic never refused' - "
     "is about integer time sequences and is NOT decided here; R4 only fixes the formulas it rests on.")
+EXPLANATION += (" Added while testing: R1 also requires the total quota to be charged only after the sender's own quota admitted the packet and the filter stages to be evaluated only for sources no response is expected from. R5: each limiter is built from its own configured quota, the builder's fields are written only by their setters, and from_quota sets tau = period, t = period / tokens.")
 NOT_DECIDED = ["the GCRA arithmetic of the rate limiter (burst + rate x window; conforming traffic never refused)", "that RateLimiter::prune changes no decision",
                "max_nodes_per_ip / max_bans_per_ip escalation counts"]
 TRUSTED = ["RateLimiter::allows returns Err exactly when the quota is exceeded (not analysed)"]
